@@ -295,13 +295,23 @@ class ExceptionTrace(object):
 
         return fmt.format(message)
 
+    def _format_name(self, name, fmt):  # type: (str, str) -> str
+        if "<" in name:
+            # A file or function name is not markup: it is shown as it is,
+            # unstyled (see _format_message)
+            return name.replace("<", "\\<")
+
+        return fmt.format(name)
+
     def _render_snippet(self, io, frame):
         self._render_line(
             io,
-            "at <fg=green>{}</>:<b>{}</b> in <fg=cyan>{}</>".format(
-                self._get_relative_file_path(frame.filename),
+            "at {}:<b>{}</b> in {}".format(
+                self._format_name(
+                    self._get_relative_file_path(frame.filename), "<fg=green>{}</>"
+                ),
                 frame.lineno,
-                frame.function,
+                self._format_name(frame.function, "<fg=cyan>{}</>"),
             ),
             True,
         )
@@ -388,12 +398,15 @@ class ExceptionTrace(object):
                 for frame in collection:
                     self._render_line(
                         io,
-                        "<fg=yellow>{:>{}}</>  <fg=default;options=bold>{}</>:<b>{}</b> in <fg=cyan>{}</>".format(
+                        "<fg=yellow>{:>{}}</>  {}:<b>{}</b> in {}".format(
                             i,
                             max_frame_length,
-                            self._get_relative_file_path(frame.filename),
+                            self._format_name(
+                                self._get_relative_file_path(frame.filename),
+                                "<fg=default;options=bold>{}</>",
+                            ),
                             frame.lineno,
-                            frame.function,
+                            self._format_name(frame.function, "<fg=cyan>{}</>"),
                         ),
                         True,
                     )
